@@ -1,41 +1,42 @@
 ---------------------------- MODULE FromSamplesGen ----------------------------
 (***************************************************************************)
 (* C30 generator (REPLAY) and model check.  One behaviour per sample array: *)
-(* TLC enumerates EVERY array of 1..MaxS shots x 1..MaxW wires (Pick),      *)
+(* TLC enumerates EVERY array of 1..MaxS shots x 1..MaxW wires (Split picks *)
+(* the number of shots and the first shot, Do the remaining shots), and    *)
 (* computes for every measurement process of the list for that wire count  *)
-(* (MPS[nw], a constant of the run read from MPS_FILE, compiled once in     *)
-(* Init) the result defined by FromSamples.tla and prints array + results  *)
-(* for the driver (Emit).                                                  *)
-(* The invariant SpecLaws checks the specification's own laws on each      *)
-(* array (probabilities sum to 1, counts total the shots, all_outcomes     *)
-(* only adds zero entries, variance identity / sign, and: the statistics   *)
-(* computed from the dictionary of full-width counts equal the statistics  *)
-(* computed from the shots).                                               *)
-(* Arrays with at least BigBits bits get the sub-list of measurement       *)
-(* processes k with k % Stride = Code(ix) % Stride (Stride = 1: all).       *)
+(* (MPS_FILE, read and compiled once per wire count in Init) the result    *)
+(* defined by FromSamples.tla; Do prints array + results for the driver.   *)
+(* lawok records whether the specification's own laws hold on the array    *)
+(* (probabilities sum to 1, counts total the shots, all_outcomes only adds *)
+(* zero entries, variance identity / sign, and: the statistics computed    *)
+(* from the dictionary of full-width counts equal the statistics computed  *)
+(* from the shots); the invariant SpecLaws is lawok.                       *)
+(* Arrays with at least BigBits (BigBits2) bits get the sub-list of        *)
+(* measurement processes k with k % s = Code(ix) % s, s = Stride (Stride2); *)
+(* smaller arrays get the whole list.                                      *)
 (***************************************************************************)
 EXTENDS FromSamples, Json, IOUtils
-CONSTANTS MaxW, MaxS, Stride, BigBits
-MPS == JsonDeserialize(IOEnv.MPS_FILE)
-VARIABLES nw, cms, ix, res, ph
-vars == <<nw, cms, ix, res, ph>>
+CONSTANTS MaxW, MaxS, Stride, BigBits, Stride2, BigBits2
+VARIABLES nw, cms, sh, ix, res, lawok, ph
+vars == <<nw, cms, sh, ix, res, lawok, ph>>
 
-Init == /\ nw \in 1..MaxW /\ ph = 0 /\ ix = <<>> /\ res = <<>>
-        /\ cms = LET lst == MPS[nw] IN TLCEval([k \in 1..Len(lst) |-> TLCEval(Compile(lst[k], nw))])
-Pick == /\ ph = 0 /\ ph' = 1 /\ UNCHANGED <<nw, cms, res>>
-        /\ \E sh \in 1..MaxS : ix' \in [1..sh -> 1..Pow2(nw)]
+Init == /\ nw \in 1..MaxW /\ ph = 0 /\ sh = 0 /\ ix = <<>> /\ res = <<>> /\ lawok = TRUE
+        /\ cms = LET lst == JsonDeserialize(IOEnv.MPS_FILE)[nw] IN TLCEval([k \in 1..Len(lst) |-> TLCEval(Compile(lst[k], nw))])
+Split == /\ ph = 0 /\ ph' = 1 /\ UNCHANGED <<nw, cms, res, lawok>>
+         /\ sh' \in 1..MaxS /\ \E f \in 1..Pow2(nw) : ix' = <<f>>
 
 RECURSIVE CodeUpTo(_, _)
 CodeUpTo(x, i) == IF i = 0 THEN 0 ELSE (CodeUpTo(x, i - 1) * 8 + x[i]) % 1024
 Code(x) == CodeUpTo(x, Len(x))
-Active(k, c) == Stride = 1 \/ Len(ix) * nw < BigBits \/ k % Stride = c
+StrideOf(x) == LET bits == Len(x) * nw IN IF bits >= BigBits2 THEN Stride2 ELSE IF bits >= BigBits THEN Stride ELSE 1
 
-Emit == /\ ph = 1 /\ ph' = 2 /\ UNCHANGED <<nw, cms, ix>>
-        /\ LET c == Code(ix) % Stride IN
-           res' = [k \in 1..Len(cms) |-> IF Active(k, c) THEN TLCEval(Result(cms[k], ix)) ELSE "-"]
-        /\ PrintT(ToJson([nw |-> nw, S |-> [i \in 1..Len(ix) |-> BitsOf(ix[i] - 1, nw)], C |-> FullCounts(ix, nw), r |-> res']))
-Next == Pick \/ Emit
+Do == /\ ph = 1 /\ ph' = 2 /\ UNCHANGED <<nw, sh>> /\ cms' = <<>>
+      /\ \E rest \in [1..(sh - 1) -> 1..Pow2(nw)] : ix' = ix \o rest
+      /\ LET s == StrideOf(ix')  c == Code(ix') % s  act == {k \in 1..Len(cms) : k % s = c} IN
+         /\ res' = [k \in act |-> TLCEval(Result(cms[k], ix'))]
+         /\ lawok' = LET C == TLCEval(FullCounts(ix', nw)) IN \A k \in act : Laws(cms[k], ix', res'[k], C)
+      /\ PrintT(ToJson([nw |-> nw, S |-> [i \in 1..Len(ix') |-> BitsOf(ix'[i] - 1, nw)], C |-> FullCounts(ix', nw), r |-> res']))
+Next == Split \/ Do
 
-SpecLaws == ph = 2 => LET C == TLCEval(FullCounts(ix, nw))  c == Code(ix) % Stride IN
-                      \A k \in 1..Len(cms) : Active(k, c) => Laws(cms[k], ix, res[k], C)
+SpecLaws == lawok
 =============================================================================
